@@ -22,7 +22,8 @@ def sig_cr(fl):
 
 SIGNATURES = {'cr-in-chardata': sig_cr}
 
-RICH_TEXTS = ['e\u0301 decomposed', '\u2126 ohm \u212b angstrom', '\ufb01 ligature',  'plain', 'a & b', '<tag>', 'x > y', '"quoted"', "it's", 'Ünï ☃ 𝄞 日本', ' lead', 'trail ', '\n  ', 'tab\there',
+RICH_TEXTS = ['\u0645\u06cc\u200c\u062e\u0648\u0627\u0647\u0645 zwnj', '\U0001f468\u200d\U0001f469\u200d\U0001f467 zwj', 'soft\u00adhyphen \u200f rlm \ufeff bom', '\ue000 private \U000e0001 tag',
+              'e\u0301 decomposed', '\u2126 ohm \u212b angstrom', '\ufb01 ligature',  'plain', 'a & b', '<tag>', 'x > y', '"quoted"', "it's", 'Ünï ☃ 𝄞 日本', ' lead', 'trail ', '\n  ', 'tab\there',
               'nl\nhere', '&amp; literally', '&#13; literally', ']]>', '--', ' nbsp', ' ls', 'a\u0085b', '']
 
 
@@ -108,6 +109,43 @@ def check_state(oc, pid, ro, tree, label, rec_extra, original):
     if bad:
         oc.failing.append(dict(rec, spec='; '.join(bad)))
     return text
+
+
+def locale_check(oc, texts):
+    import os, shutil, subprocess, sys, tempfile
+    from . import impl
+    if not texts:
+        return
+    tmp = tempfile.mkdtemp(prefix='mrm-c14-')
+    try:
+        for k, t in enumerate(texts):
+            with open(os.path.join(tmp, f's{k}.mos.xml'), 'w', encoding='utf-8', newline='') as f:
+                f.write(t)
+        code = ("import sys, json, os; sys.path.insert(0, %r)\n"
+                "from mosromgr.mostypes import MosFile\n"
+                "out = []\n"
+                "for k in range(%d):\n"
+                "    try: out.append(str(MosFile.from_file(os.path.join(%r, 's%%d.mos.xml' %% k))))\n"
+                "    except Exception as e: out.append('ERR ' + type(e).__name__)\n"
+                "sys.stdout.buffer.write(json.dumps(out).encode('ascii'))" % (impl.REPO, len(texts), tmp))
+        env = dict(os.environ, LC_ALL='C', LANG='C', PYTHONUTF8='0', PYTHONCOERCECLOCALE='0', PYTHONDONTWRITEBYTECODE='1')
+        env.pop('PYTHONIOENCODING', None)
+        p = subprocess.run([sys.executable, '-c', code], env=env, stdout=subprocess.PIPE, stderr=subprocess.PIPE, timeout=300)
+        try:
+            got = json.loads(p.stdout.decode('ascii'))
+        except Exception:  # noqa: BLE001
+            got = None
+        for k, t in enumerate(texts):
+            oc.evaluations += 1
+            oc.in_domain += 1
+            oc.count('locale-C-from_file')
+            if got is None or ('\r' not in t and got[k] != t):
+                oc.failing.append({'kind': 'roundtrip-locale', 'label': 'serialisation written to a file and loaded from it under LC_ALL=C, PYTHONUTF8=0', 'text': t[:3000],
+                                   'state_has_cr': False, 'spec': 'the serialised running order reads back to an identical running order (from a file, whatever the locale)',
+                                   'impl': (got[k][:600] if got else {'exit': p.returncode, 'stderr': p.stderr[-400:].decode('latin-1')})})
+                break
+    finally:
+        shutil.rmtree(tmp, ignore_errors=True)
 
 
 def _envelope_plans():
@@ -261,6 +299,9 @@ def run_c14(tier, seed):
             oc.count('after:' + cls)
             if text is not None:
                 states.append((tree, text))
+    # written to a file and loaded from it in a process whose locale encoding is NOT UTF-8 (LC_ALL=C, UTF-8 mode off):
+    # files are XML documents in the encoding they declare (UTF-8 by default), whatever the locale
+    locale_check(oc, [t for _, t in states if any(ord(ch) > 127 for ch in t)][:25] + [t for _, t in states][:5])
     # model: serialize byte for byte
     resps = lean.run_batch([{'op': 'serialize', 'doc': t} for t, _ in states])
     for (tree, text), r in zip(states, resps):
@@ -336,6 +377,16 @@ def replay(pid, fl):
         oc.failing.append({'spec': 'the loaded document differs from what the XML says'})
     check_state(oc, pid, ro, tree, 'replay', {}, original)
     print(json.dumps([f.get('spec') for f in oc.failing], indent=1))
+    if oc.failing:
+        print(f'VIOLATION property={pid} replay=(this file): still fails on the current tree')
+        return 1
+    print(f'{pid}: the recorded input no longer fails on the current tree')
+    return 0
+
+
+def replay_locale(pid, fl):
+    oc = Outcome(pid)
+    locale_check(oc, [fl['text']])
     if oc.failing:
         print(f'VIOLATION property={pid} replay=(this file): still fails on the current tree')
         return 1
